@@ -14,6 +14,10 @@ R-C18-5: the uniform generator interpreted in exact arithmetic with symbolic R0 
          increase strictly, every fine radius is the midpoint of its coarse neighbours, divideBy2=k contains divideBy2=k-1 as its
          every-second-node subgrid, angles are j/ntheta of the literal 2*pi with antipodal partners, nr is odd. (The anisotropic
          generator orders doubles in std::set and is not interpretable symbolically; its memory safety is R-C18-1.)
+R-C18-7: the anisotropic generator (std::set of doubles, window clamping, recursive halving, 8x+1 trimming) interpreted
+         in exact arithmetic with an ordered-set model (setdom.py): for refinement radii below, inside, at and beyond
+         [R0, Rmax] and factors 1..nr_exp-1 the radii run from exactly R0 to exactly Rmax, increase strictly, nr is odd,
+         fine nodes are midpoints, one more divideBy2 nests; no out-of-range access; inadmissible factors throw.
 R-C18-6: the text round trip.  writeToFile and the file constructor are interpreted over abstract streams (iodom.py):
          the reader must deliver the written sequence — same length, same order, value i = rd(written value i, notation,
          precision) — into the members the writer took them from, nr_/ntheta_ re-derived, validation before derived data.
@@ -107,6 +111,80 @@ def algebraic_grid(ck, prog, tier):
             ck.violation("R-C18-5", "uniform-generator:%s" % probs[0].split(" ")[0], site, "%s: %s" % (key, "; ".join(probs)))
         else:
             ck.ok("R-C18-5", key, sample={"parameters": key, "nr": nr, "ntheta": nt, "radius[1]": dag.show(rad[1], 60)})
+
+
+def anisotropic_grid(ck, prog, tier):
+    """constructRadialDivisions with anisotropic_factor > 0 (RadialAnisotropicDivision: std::set of doubles, window clamping,
+    recursive halving, 8x+1 trimming) interpreted with R0 and span = Rmax - R0 as positive symbols; every radius is
+    R0 + q*span with a rational q, so order, end points, midpoints and nesting are exact statements about the q's"""
+    from fractions import Fraction as F
+    from gmg import dag, setdom
+    ck.rule("R-C18-7", "anisotropic generator, exact arithmetic, refinement radius below / inside / at / beyond [R0,Rmax]: radii run from exactly R0 to exactly Rmax, increase strictly, nr odd, fine nodes are midpoints, divideBy2 nests; no out-of-range access; unaccepted factors throw", floor=12)
+    R0, span = dag.atom("R0"), dag.atom("span")
+    R = dag.add(R0, span)
+    if tier == "quick":
+        cases = [(3, 1), (4, 1), (4, 2), (4, 3), (5, 2), (5, 4)]
+        ps = [F(-1, 2), F(0), F(1, 3), F(2, 3), F(9, 10), F(1), F(3, 2)]
+    else:
+        cases = [(e, a) for e in (2, 3, 4, 5, 6) for a in range(1, e + 1)]
+        ps = [F(-1, 2), F(0), F(1, 100), F(1, 5), F(1, 3), F(1, 2), F(2, 3), F(4, 5), F(9, 10), F(99, 100), F(1), F(11, 10), F(3, 2)]
+    site = ir.locstr(prog.fn("PolarGrid::RadialAnisotropicDivision"))
+    for (nr_exp, af) in cases:
+        for p_ in ps:
+            key = "nr_exp=%d anisotropic_factor=%d refinement radius = R0 + %s*(Rmax-R0)" % (nr_exp, af, p_)
+            ck.instance("R-C18-7", key, nontrivial=(p_ in (F(1), F(3, 2), F(-1, 2)) or af >= 2))
+            dom = setdom.GenDomain(prog)
+            it = Interp(prog, dom)
+            g = dom.new_object("PolarGrid", None, None)
+            rr = dag.add(R0, dag.mul(dag.const(p_), span))
+            probs = []
+            try:
+                it.call_function(prog.fn("PolarGrid::constructRadialDivisions"), g, [R0, R, nr_exp, rr, af])
+            except ThrowEx as t:
+                if 2 ** af < 2 ** nr_exp:
+                    probs.append("an admissible combination (2^factor < 2^nr_exp) is rejected: %s" % t.what)
+                    ck.violation("R-C18-7", "anisotropic:rejected", site, "%s: %s" % (key, probs[0]))
+                else:
+                    ck.ok("R-C18-7", key)
+                continue
+            if 2 ** af >= 2 ** nr_exp:
+                probs.append("the factor is accepted although 2^factor >= 2^nr_exp")
+            nr = g.f["nr_"].get()
+            ra = g.f["radii_"].get()
+            rad = [dag.lift(ra.sym.get(i, dag.atom("unset_radius_%d" % i))) for i in range(nr)]
+            qs = [dag.const_value(dag.div(dag.sub(x, R0), span)) for x in rad]
+            if dom.oob:
+                probs.append("out-of-range access %s[%s] (length %s) at %s" % tuple(dom.oob[0]))
+            if any(q is None for q in qs):
+                probs.append("radius %d is not of the form R0 + q*(Rmax-R0): %s" % (qs.index(None), dag.show(rad[qs.index(None)], 60)))
+            else:
+                if qs[0] != 0 or not dag.equal(rad[0], R0):
+                    probs.append("the first radius is R0 + %s*(Rmax-R0), not R0" % qs[0])
+                if qs[-1] != 1 or not dag.equal(rad[-1], R):
+                    probs.append("the last radius is R0 + %s*(Rmax-R0), not Rmax" % qs[-1])
+                dec = [i for i in range(nr - 1) if not qs[i] < qs[i + 1]]
+                if dec:
+                    probs.append("radii %d and %d are not increasing (q = %s, %s)" % (dec[0], dec[0] + 1, qs[dec[0]], qs[dec[0] + 1]))
+                if nr % 2 != 1:
+                    probs.append("nr = %d is even" % nr)
+                else:
+                    nm = [m for m in range((nr - 1) // 2) if 2 * qs[2 * m + 1] != qs[2 * m] + qs[2 * m + 2]]
+                    if nm:
+                        probs.append("fine radius %d is not the midpoint of its coarse neighbours" % (2 * nm[0] + 1))
+            if not probs:
+                # nesting under one more refinement
+                it.call_function(prog.fn("PolarGrid::constructAngularDivisions"), g, [2, nr])
+                it.call_function(prog.fn("PolarGrid::refineGrid"), g, [1])
+                nr2 = g.f["nr_"].get()
+                ra2 = g.f["radii_"].get()
+                if nr2 != 2 * nr - 1 or any(not dag.equal(dag.lift(ra2.sym.get(2 * i)), rad[i]) for i in range(nr)):
+                    probs.append("divideBy2=1 does not contain divideBy2=0 as its every-second-node subgrid")
+                if dom.oob:
+                    probs.append("out-of-range access %s[%s] (length %s) at %s" % tuple(dom.oob[0]))
+            if probs:
+                ck.violation("R-C18-7", "anisotropic:%s" % "-".join(probs[0].split(" ")[:3]).replace(":", ""), site, "%s: %s" % (key, "; ".join(probs[:3])))
+            else:
+                ck.ok("R-C18-7", key, sample={"parameters": key, "nr": nr, "q (first 6)": [str(q) for q in qs[:6]]} if (nr_exp, af, p_) == (4, 2, F(2, 3)) else None)
 
 
 def tolerance_of_equals(prog):
@@ -432,6 +510,8 @@ def main(tier):
     pinned(f, "result", lambda i: i.replace(" ", "") == "(resultSize-1)", lambda r: r == "vec.back()", "the last input value")
     # ---------------- R-C18-5: algebraic facts of the uniform generator (exact rational functions of R0, Rmax)
     algebraic_grid(ck, prog, tier)
+    # ---------------- R-C18-7: the anisotropic generator in exact arithmetic (ordered-set model)
+    anisotropic_grid(ck, prog, tier)
     # ---------------- R-C18-6: text round trip (writer and reader interpreted over abstract streams)
     round_trip(ck, tier)
     return ck.finish(
